@@ -56,6 +56,8 @@ def case_strategy(draw):
         'layout': layout, 'identified': identified, 'naming': naming, 'first': first, 'inputs': inputs,
         'negative': negative, 'bad_at': draw(st.integers(0, k - 1)), 'meta': draw(st.booleans()),
         'cache_mb': draw(st.sampled_from([1, 2048])),
+        # an explicit list may name stores that live in different directories
+        'spread': naming == 'explicit' and draw(st.booleans()),
     }
 
 
@@ -65,8 +67,12 @@ def _make_inputs(case, d, TS):
     fdefs = [] if layout == 'base' else [BULK]
     bases, assocs = [], []
     for k, inp in enumerate(case['inputs']):
-        p = d / f'{inp["name"]}.nc'
-        ap = d / f'A_{inp["name"]}.nc'
+        sub = d
+        if case.get('spread') and k % 2 == 1:
+            sub = d / f'elsewhere{k}'
+            sub.mkdir(exist_ok=True)
+        p = sub / f'{inp["name"]}.nc'
+        ap = sub / f'A_{inp["name"]}.nc'
         trajs = inp['trajs']
         neg = case['negative'] if k == case['bad_at'] else None
         kw = {}
@@ -113,6 +119,8 @@ def body(ctx: core.Ctx, case: dict):
         model = [t for inp in case['inputs'] for t in inp['trajs']]
         sizes = [len(inp['trajs']) for inp in case['inputs']]
         labels = {layout, case['naming'], 'identified' if case['identified'] else 'unidentified', f'k={len(bases)}'}
+        if case.get('spread') and len(bases) > 1:
+            labels.add('inputs_in_different_directories')
         if case['negative']:
             labels.add('negative_' + case['negative'])
             try:
